@@ -310,7 +310,7 @@ class Run:
         os.makedirs(os.path.join(VERIF, 'replays'), exist_ok=True)
         lines = []
         if self.violations:
-            for v in self.violations[:3]:
+            for v in self.violations[:int(os.environ.get('VERIF_MAX_VIOLATIONS', '3'))]:
                 h = hashlib.sha1(json.dumps(v, sort_keys=True, default=str).encode()).hexdigest()[:10]
                 path = os.path.join(VERIF, 'replays', '%s-%s.json' % (self.prop, h))
                 json.dump({'property': self.prop, 'seed': self.seed, 'tier': self.tier, **v,
